@@ -335,6 +335,7 @@ struct Run
       for (size_t j = (a ? a - 1 : 0); j < b && j < w.size(); j++)
       {
         if (w[j].op != W_EXPIRE_AT && w[j].op != W_PERSIST) continue;
+        if (w[j].op == W_EXPIRE_AT && r.inv >= w[j].whenNs) continue; // even a revived key would be expired again by now
         for (auto &s : states[size_t(k)][j])
           if (s.present && (r.valId == 0 || s.valId == r.valId) && s.expLo != INF && w[j].ret >= s.expLo) { v.resurrect = true; v.resOp = w[j].op; }
       }
@@ -343,6 +344,7 @@ struct Run
       {
         size_t jj = a - 1 - j;
         if (w[jj].op == W_SET || w[jj].op == W_SET_TTL || w[jj].op == W_REMOVE) break;
+        if (w[jj].op == W_EXPIRE_AT && r.inv >= w[jj].whenNs) continue;
         for (auto &s : states[size_t(k)][jj])
           if (s.present && (r.valId == 0 || s.valId == r.valId) && s.expLo != INF && w[jj].ret >= s.expLo) { v.resurrect = true; v.resOp = w[jj].op; }
       }
@@ -434,7 +436,7 @@ struct Run
         if (!r.ttlHas) { if (!v.ttlNoneOK) { report("C12:conc:ttl:none-on-ttl-key", "ttl() reported no expiry although every admissible state has a live key with an expiry", r.key, &r); taint(r.key, r); } }
         else if (!v.ttlValOK)
         {
-          if (!v.presentOK && v.resurrect) report(std::string("C12:ttl:expired-resurrected:") + wopName[v.resOp] + "-on-expired", "ttl() shows a key whose expiry had passed before " + std::string(wopName[v.resOp]) + "() was called on it (concurrent run)", r.key, &r);
+          if (v.resurrect) report(std::string("C12:ttl:expired-resurrected:") + wopName[v.resOp] + "-on-expired", "ttl() shows a key whose expiry had passed before " + std::string(wopName[v.resOp]) + "() was called on it (concurrent run)", r.key, &r);
           else if (!v.presentOK) report("C12:conc:ttl:expired-or-absent-visible", "ttl() reported a remaining time for a key that is absent or expired in every admissible state", r.key, &r);
           else report("C12:conc:ttl:wrong-remaining", "ttl() = " + std::to_string(r.ttlSec) + " s is outside floor((expiry-now)/1s) for every admissible state", r.key, &r);
           taint(r.key, r);
